@@ -6,6 +6,7 @@ import (
 	"encoding/json"
 	"fmt"
 	"hash/fnv"
+	mrand "math/rand"
 	"os"
 	"runtime"
 	"runtime/debug"
@@ -93,6 +94,9 @@ func RunCase(t *testing.T, c *Case, keepTrace bool) *Result {
 		debug.SetMemoryLimit(6 << 30)
 	})
 	runtime.GC()
+	// math/rand's global source (used by the back-off jitter of cenkalti/backoff) is
+	// re-seeded per run; needs GODEBUG=randseednop=0 with this Go release
+	mrand.Seed(int64(c.Seed) + 1) //nolint:staticcheck
 	func() {
 		defer func() {
 			if p := recover(); p != nil {
@@ -265,3 +269,5 @@ func envOr(k, d string) string {
 func offGrid(who int) time.Duration {
 	return 333*time.Microsecond + time.Duration(who)*7*time.Microsecond
 }
+
+var debugOn = os.Getenv("VERIF_DEBUG") != ""
